@@ -344,10 +344,10 @@ def _standin(nvars, periodic, ncomp, layout):
     return NS(nvars=tuple(nvars), dx=dx, init=(shape, None, np.dtype('float64')), ncomp=ncomp)
 
 
-def _plain_standin(nvars, periodic):
+def _plain_standin(nvars, periodic, n=None):
     """a problem stand-in without components on a grid of ANY size (the shipped finite-difference problems insist on
     2^p - 1 points for non-periodic boundaries, i.e. on nested grids); mesh_to_mesh reads nvars, dx and init only"""
-    n = nvars[0]
+    n = nvars[0] if n is None else n
     return NS(nvars=tuple(nvars), dx=1.0 / n if periodic else 1.0 / (n + 1), init=(tuple(nvars), None, np.dtype('float64')))
 
 
@@ -355,6 +355,10 @@ PROBLEMS = {
     # name: (constructor(n) -> problem, periodic, ndim, nvars is int)
     'standin_1d_dirichlet_anysize': (lambda n: _plain_standin((n,), False), False, 1),
     'standin_2d_dirichlet_anysize': (lambda n: _plain_standin((n, n), False), False, 2),
+    # boxes with different numbers of points per direction (one dx): the 1-D operators must land on their own axes
+    'standin_2d_dirichlet_rect': (lambda n: _plain_standin((n, (n - 1) // 2), False), False, 2, lambda n: (n, (n - 1) // 2)),
+    'standin_2d_dirichlet_rect_T': (lambda n: _plain_standin(((n - 1) // 2, n), False, n=n), False, 2, lambda n: ((n - 1) // 2, n)),
+    'standin_3d_dirichlet_rect': (lambda n: _plain_standin((n, (n - 1) // 2, (n - 1) // 2), False), False, 3, lambda n: (n, (n - 1) // 2, (n - 1) // 2)),
     'heat1d_periodic': (lambda n: heatNd_unforced(nvars=n, bc='periodic'), True, 1),
     'heat1d_dirichlet': (lambda n: heatNd_unforced(nvars=n, bc='dirichlet-zero', freq=1), False, 1),
     'advection1d_periodic': (lambda n: advectionNd(nvars=n, bc='periodic'), True, 1),
@@ -401,6 +405,9 @@ def mesh_cases(tier):
     # genuinely non-nested grids: non-periodic with 2^k points per direction (dx = 1/(n+1)); only the general path applies
     add('standin_1d_dirichlet_anysize', 16, [(2, 2), (4, 2), (2, 4), (6, 4)], nested=(False,))
     add('standin_2d_dirichlet_anysize', 16, [(2, 2), (4, 2), (2, 4)], nested=(False,), dtypes=('mesh',))
+    add('standin_2d_dirichlet_rect', 31, [(2, 2), (4, 2), (4, 4)], nested=(True, False), dtypes=('mesh', 'imex_mesh'))
+    add('standin_2d_dirichlet_rect_T', 31, [(2, 2), (4, 2)], nested=(True, False), dtypes=('mesh',))
+    add('standin_3d_dirichlet_rect', 15, [(2, 2), (4, 2)], nested=(True, False), dtypes=('mesh',))
     add('heat1d_dirichlet', 7, [(2, 2), (4, 4)], nested=(True, False))
     add('advection1d_periodic', 16, [(2, 2), (6, 4)], nested=(True, False))
     add('heat1d_periodic', 16, [(2, 2)], same=True)
@@ -461,30 +468,32 @@ def _comp_views(x, dt, prob):
 
 def eval_mesh(case):
     res = Res(case)
-    ctor, periodic, ndim = PROBLEMS[case['problem']]
+    entry = PROBLEMS[case['problem']]
+    ctor, periodic, ndim = entry[:3]
+    dimsf = entry[3] if len(entry) > 3 else (lambda n: (n,) * ndim)  # grid points per direction
     nf, nc, io, ro = case['nf'], case['nc'], case['iorder'], case['rorder']
+    df, dc = dimsf(nf), dimsf(nc)
     try:
         pf, pc = ctor(nf), ctor(nc)
     except Exception as e:
         res.d['outcome'] = 'problem_not_buildable'
         res.d['notes']['error'] = _exc(e)
         return res.d
-    # oracle operators
+    # oracle operators, one per direction
     if nf == nc:
-        P1 = R1 = np.eye(nf)
-        tP1 = tR1 = np.zeros(nf)
+        P1s = R1s = [np.eye(n) for n in df]
     else:
-        oP, oR = _oracle_1d(nf, nc, io, periodic), _oracle_1d(nf, nc, ro, periodic)
-        if oP is None or oR is None:
+        oPs, oRs = [_oracle_1d(a, b, io, periodic) for a, b in zip(df, dc)], [_oracle_1d(a, b, ro, periodic) for a, b in zip(df, dc)]
+        if any(o is None for o in oPs + oRs):
             try:
                 mesh_to_mesh(pf, pc, {'iorder': io, 'rorder': ro, 'periodic': periodic, 'equidist_nested': case['equidist_nested']})
                 res.d['outcome'] = 'order_not_servable_but_object_built'
             except Exception as e:
                 res.d['outcome'] = 'raised_order_not_servable'
             return res.d
-        P1, tP1 = oP[0], oP[1]
-        R1, tR1 = 0.5 * oR[0].T, None
-        aR1 = 0.5 * np.array(oi.dense_abs_rowsum(oR[2]))  # per fine point
+        P1s = [o[0] for o in oPs]
+        R1s = [0.5 * o[0].T for o in oRs]
+        aR1s = [0.5 * np.array(oi.dense_abs_rowsum(o[2])) for o in oRs]  # per fine point
     try:
         T = mesh_to_mesh(pf, pc, {'iorder': io, 'rorder': ro, 'periodic': periodic, 'equidist_nested': case['equidist_nested']})
     except REFUSALS as e:
@@ -495,16 +504,16 @@ def eval_mesh(case):
         res.d['outcome'] = 'raised'
         res.fail('exception', {'error': _exc(e)}, op='__init__')
         return res.d
-    Pref = _kron_all([P1] * ndim)
-    Rref = _kron_all([R1] * ndim)
+    Pref = _kron_all(P1s)
+    Rref = _kron_all(R1s)
     # tolerance of a Kronecker entry: d * C*eps*order * product of the absolute row sums of the 1D factors
     if nf == nc:
         tolP = np.zeros(Pref.shape[0])
         tolRcol = np.zeros(Rref.shape[1])
     else:
-        aP = np.array(oi.dense_abs_rowsum(oP[2]))
-        tolP = ndim * C * EPS * io * _kron_all([aP] * ndim)  # per fine point (row of P)
-        tolRcol = ndim * C * EPS * max(ro, 1) * _kron_all([aR1] * ndim)  # per fine point (column of R)
+        aPs = [np.array(oi.dense_abs_rowsum(o[2])) for o in oPs]
+        tolP = ndim * C * EPS * io * _kron_all(aPs)  # per fine point (row of P)
+        tolRcol = ndim * C * EPS * max(ro, 1) * _kron_all(aR1s)  # per fine point (column of R)
     Pm, Rm = T.Pspace.toarray(), T.Rspace.toarray()
     apply_ref = {'Pspace': Pref, 'Rspace': Rref}
     for name, A, ref, tol in (('Pspace', Pm, Pref, tolP[:, None] * np.ones_like(Pref)), ('Rspace', Rm, Rref, tolRcol[None, :] * np.ones_like(Rref))):
